@@ -126,7 +126,7 @@ func c06Graph() *Graph {
 func init() {
 	Register(Meta{
 		ID: "C06", Level: "model_checking", LongCases: true,
-		Rule: "instrumented build: every `range` over a map in the repository is rewritten to iterate in the order dictated by the explorer (site list in the evidence). Profiles: m=2..4 sibling quantified constraints under one propertyConstraints map, the same nested to depth 2, under or/and/not mixed with plain constraints, with 1-3 prefixes. For each profile: pass keys = every order of every YAML key map (all permutations for <=4 keys, unbounded composition); pass others = every other map-range site at deviation bound 1 (2n rotations/reversals for maps with >4 keys); thorough adds pass all2 = every site at bound 2. Oracle: all executions of Validate(profile, data, fixed clock) yield one report byte string and all executions of GenerateRego after a counter reset yield one code byte string. An uninstrumented pass repeats every profile 30x in one process (Go's own random map order) as a cross-check that the seam is complete.",
+		Rule: "instrumented build: every `range` over a map in the repository is rewritten to iterate in the order dictated by the explorer (site list in the evidence). Profiles: m=2..4 sibling quantified constraints under one propertyConstraints map, the same nested to depth 2, under or/and/not mixed with plain constraints, with 1-3 prefixes. For each profile: pass keys = every order of every YAML key map (all permutations for <=4 keys, unbounded composition); pass others = every other map-range site at deviation bound 1 (2n rotations/reversals for maps with >4 keys); thorough adds pass all2 = every site at bound 2. Oracle: all executions of Validate(profile, data, fixed clock) yield one report byte string and all executions of GenerateRego after a counter reset yield one code byte string. An uninstrumented pass repeats every profile 30x in one process (Go's own random map order) as a cross-check that the seam is complete. Pass history: for 5 profiles x 6 documents chosen to collide on cheap cache keys (same profile name / different content, same node ids / different values, failing inputs), every ordered pair of Validate calls is executed in one process and each result must equal the result the same call gave before (a call's bytes must not depend on the call made before it).",
 		Assumptions: []string{"nondeterminism inside dependencies (OPA, json-gold, encoding/json) is not behind the seam; the uninstrumented repetition pass is the cross-check for it"},
 	}, c06Gen, c06Run)
 	Register(Meta{
@@ -139,7 +139,81 @@ func init() {
 	}, c06Run)
 }
 
+// ---- history pass: the same (profile, data, configuration) gives the same bytes whatever was validated before in
+// the process. Pairs are chosen to collide on every cheap cache key one could think of: same profile name with
+// different content, same text length, same node ids with different values, same data for different profiles.
+
+func c06HistInputs() (profiles []string, datas []string) {
+	mkp := func(name, prop string, n int) string {
+		return EmitYAML(M("profile", name, "prefixes", M("ex", EX), "violation", strs("v"),
+			"validations", M("v", M("message", "m", "targetClass", "ex.T", "propertyConstraints", M(prop, M("minCount", n))))))
+	}
+	profiles = []string{mkp("same name", "ex.p1", 1), mkp("same name", "ex.p2", 1), mkp("same name", "ex.p1", 2), mkp("other", "ex.p1", 1), "profile: [broken\n"}
+	mkd := func(v1, v2 string, two bool) string {
+		g := &Graph{}
+		n := g.Add(nid(0), EX+"T").P(EX+v1, "a")
+		if two {
+			n.P(EX+v1, "b")
+		}
+		g.Add(nid(1), EX+"T").P(EX+v2, "a")
+		return g.FlatJSONLD()
+	}
+	datas = []string{mkd("p1", "p2", false), mkd("p2", "p1", false), mkd("p1", "p1", true), mkd("p3", "p3", false), `{"@graph":[`, `{}`}
+	return
+}
+
+func c06RunHistory(c *Ctx, cs c06Case) {
+	profiles, datas := c06HistInputs()
+	type call struct{ p, d int }
+	var calls []call
+	for p := range profiles {
+		for d := range datas {
+			calls = append(calls, call{p, d})
+		}
+	}
+	run := func(k call) string {
+		r := Validate(profiles[k.p], datas[k.d])
+		c.Eval(1)
+		if r.Panic != nil {
+			return "PANIC " + r.Panic.Sig()
+		}
+		if r.Err != nil {
+			return "ERR"
+		}
+		return r.Report
+	}
+	// reference: each call as the first thing after a (logically) fresh start is not available in-process; the
+	// differential oracle is: the result of a call must not depend on which call preceded it.
+	ref := make([]string, len(calls))
+	for i, k := range calls {
+		ref[i] = run(k)
+	}
+	first := cs.Part
+	for second := range calls {
+		a := run(calls[first])
+		b := run(calls[second])
+		if a != ref[first] {
+			c.Violate("C06 the same call gives different bytes later in the process", fmt.Sprintf("call (profile %d, data %d) repeated\n%s", calls[first].p, calls[first].d, firstDiff(ref[first], a)), nil)
+		}
+		if b != ref[second] {
+			c.Violate("C06 a call's result depends on the call made before it", fmt.Sprintf("call (profile %d, data %d) after (profile %d, data %d)\n%s\nprofile:\n%s\ndata: %s", calls[second].p, calls[second].d, calls[first].p, calls[first].d, firstDiff(ref[second], b), profiles[calls[second].p], datas[calls[second].d]), nil)
+		}
+		c.Count("states", 1)
+		c.Count("transitions", 2)
+		c.Count("traces_validated_against_impl", 2)
+	}
+	c.Outcome("history pass")
+	c.Nontrivial(fmt.Sprintf("history/%d", first))
+	c.Sample(map[string]any{"pass": "history", "first_call": fmt.Sprintf("profile %d data %d", calls[first].p, calls[first].d), "pairs": len(calls)})
+}
+
 func c06Gen(tier string, emit func(c06Case)) {
+	{
+		ps, ds := c06HistInputs()
+		for k := 0; k < len(ps)*len(ds); k++ {
+			emit(c06Case{Pass: "history", Part: k})
+		}
+	}
 	for p := range c06Profiles() {
 		emit(c06Case{Profile: p, Pass: "keys", Parts: 1})
 		for k := 0; k < 4; k++ {
@@ -156,6 +230,10 @@ func c06Gen(tier string, emit func(c06Case)) {
 var c06DataText string
 
 func c06Run(c *Ctx, cs c06Case) {
+	if cs.Pass == "history" {
+		c06RunHistory(c, cs)
+		return
+	}
 	if c06DataText == "" {
 		c06DataText = c06Graph().FlatJSONLD()
 	}
